@@ -275,7 +275,8 @@ func findGCFields(p *core.Prog) *gcFields {
 	if lock == nil {
 		return nil
 	}
-	for _, fs := range fieldStores([]*ssa.Function{lock}, func(n *types.Named, f string) bool { return true }) {
+	// in GCLock itself or in an unexported helper it delegates to (a method of a named bookkeeping type)
+	for _, fs := range fieldStores(sortedFuncs(core.Helpers(lock, 2)), func(n *types.Named, f string) bool { return true }) {
 		if bo, ok := fs.Store.Val.(*ssa.BinOp); ok && bo.Op == token.ADD {
 			g.st, g.lockF = core.FieldAddrInfo(fs.Addr)
 		}
@@ -294,6 +295,7 @@ func findGCFields(p *core.Prog) *gcFields {
 		if s, ok := o.Underlying().(*types.Struct); ok {
 			for i := 0; i < s.NumFields(); i++ {
 				if m, ok := s.Field(i).Type().Underlying().(*types.Map); ok && core.NamedOf(m.Elem()) == g.st {
+					// (Underlying also sees through a named map type such as `type gcRefs map[string]*ociGC`)
 					g.mapOwner, g.mapF = o, s.Field(i).Name()
 				}
 			}
@@ -479,9 +481,9 @@ func c08R2(p *core.Prog, r *core.Report, rule string) {
 		if bo, isBin := fs.Store.Val.(*ssa.BinOp); isBin && fieldLoadSame(bo.X, g.st, g.lockF) {
 			if k, isK := core.ConstInt(bo.Y); isK && k == 1 {
 				switch {
-				case bo.Op == token.ADD && fs.Fn.Name() == "GCLock":
+				case bo.Op == token.ADD && inHelpersOf(p, fs.Fn, "GCLock"):
 					ok = true
-				case bo.Op == token.SUB && fs.Fn.Name() == "GCUnlock":
+				case bo.Op == token.SUB && inHelpersOf(p, fs.Fn, "GCUnlock"):
 					// must be guarded by locks > 0
 					ok = anyGuard(fs.Store.Block(), func(c ssa.Value, pol bool) bool {
 						b2, isB := c.(*ssa.BinOp)
@@ -490,11 +492,20 @@ func c08R2(p *core.Prog, r *core.Report, rule string) {
 				}
 			}
 		}
-		if k, isK := core.ConstInt(fs.Store.Val); isK && k == 1 && fs.Fn.Name() == "GCLock" {
+		if k, isK := core.ConstInt(fs.Store.Val); isK && k == 1 && inHelpersOf(p, fs.Fn, "GCLock") {
 			ok = true // new entry created with locks: 1
 		}
 		r.Check(ok, rule, fname, "lock count write", p.Pos(fs.Store.Pos()), "the lock count is only incremented by GCLock and decremented (when positive) by GCUnlock")
 	}
+}
+
+// inHelpersOf: fn is the named method of OCIDir or one of the unexported helpers it delegates to.
+func inHelpersOf(p *core.Prog, fn *ssa.Function, method string) bool {
+	m := p.Method(ocidirRel, "OCIDir", method)
+	if m == nil {
+		return false
+	}
+	return core.Helpers(m, 2)[fn]
 }
 
 func c08R3(p *core.Prog, r *core.Report) {
@@ -518,82 +529,162 @@ func c08R3(p *core.Prog, r *core.Report) {
 		})
 		return w
 	}
-	for _, st := range p.Callers(g.marker) {
-		fname := p.FuncName(st.From)
-		r.Check(writes(st.From), rule, fname, "marks the layout modified", p.Pos(st.Site.Pos()), "a function that marks the layout dirty must itself change a file of the layout or rewrite the index (read-only operations must not enable the sweep)")
+	// the marker and the thin unexported wrappers around it (a wrapper writes nothing itself and only passes the mark on)
+	markers := map[*ssa.Function]bool{g.marker: true}
+	for changed := true; changed; {
+		changed = false
+		for m := range markers {
+			for _, st := range p.Callers(m) {
+				f := st.From
+				if markers[f] || f.Object() == nil || f.Object().Exported() || writes(f) {
+					continue
+				}
+				if pk := core.FuncPkg(f); pk == nil || pk.Path() != modPath(ocidirRel) {
+					continue
+				}
+				markers[f] = true
+				changed = true
+			}
+		}
+	}
+	for _, m := range sortedFuncs(markers) {
+		for _, st := range p.Callers(m) {
+			if markers[st.From] {
+				continue
+			}
+			fname := p.FuncName(st.From)
+			r.Check(writes(st.From), rule, fname, "marks the layout modified", p.Pos(st.Site.Pos()), "a function that marks the layout dirty must itself change a file of the layout or rewrite the index (read-only operations must not enable the sweep)")
+		}
 	}
 }
 
 func c08R4(p *core.Prog, r *core.Report) {
 	const rule = "C08.R4"
 	r.Rule(rule, "mark phase edge kinds: index entries, config and layers are each consulted, marked in the digest set, and every index entry is loaded and recursed into regardless of its media type", 4)
-	// the mark function: the function of scheme/ocidir that calls GetManifestList and GetLayers and itself
-	var mark *ssa.Function
-	for _, fn := range pkgFuncs(p, ocidirRel) {
-		ml, ly, rec := false, false, false
-		core.Calls(fn, func(c ssa.CallInstruction) {
-			if isInvoke(c, "GetManifestList") {
-				ml = true
-			}
-			if isInvoke(c, "GetLayers") {
-				ly = true
-			}
-			if core.CalleeFn(c) == fn {
-				rec = true
-			}
-		})
-		if ml && ly && rec {
-			mark = fn
-		}
-	}
-	if mark == nil {
-		r.MissingAnchor(rule, "mark phase of the layout GC (recursive function consulting GetManifestList and GetLayers)")
+	// the mark unit: the functions of scheme/ocidir that Close (transitively) calls and that walk the
+	// image graph — one recursive function, or a few that call each other
+	closeFn := p.Method(ocidirRel, "OCIDir", "Close")
+	if closeFn == nil {
+		r.MissingAnchor(rule, ocidirRel+".(*OCIDir).Close")
 		return
 	}
-	fname := p.FuncName(mark)
-	// map updates with key origins
-	type upd struct {
-		in   *ssa.MapUpdate
-		from map[string]bool
-	}
-	var upds []upd
-	for _, b := range mark.Blocks {
-		for _, in := range b.Instrs {
-			mu, ok := in.(*ssa.MapUpdate)
-			if !ok {
-				continue
-			}
-			from := map[string]bool{}
-			for _, o := range core.Origins(mu.Key, core.SliceOpts{FieldsThrough: true, Through: func(c *ssa.Call) []int {
-				cal := core.Callee(c)
-				if cal != nil && (cal.Name() == "String" || cal.Name() == "SetDigest") {
-					var idx []int
-					for i := range c.Call.Args {
-						idx = append(idx, i)
-					}
-					return idx
-				}
-				return nil
-			}}) {
-				if o.Kind == core.OCall && o.Call.Call.IsInvoke() {
-					from[o.Call.Call.Method.Name()] = true
-				}
-			}
-			upds = append(upds, upd{mu, from})
+	unit := map[*ssa.Function]bool{}
+	for f := range unitFuncs(closeFn, 4, nil) {
+		if pk := core.FuncPkg(f); pk != nil && pk.Path() == modPath(ocidirRel) && f != closeFn {
+			unit[f] = true
 		}
 	}
-	for _, getter := range []string{"GetManifestList", "GetConfig", "GetLayers"} {
-		called := false
-		core.Calls(mark, func(c ssa.CallInstruction) {
-			if isInvoke(c, getter) {
-				called = true
+	// reachability inside the unit (static calls)
+	callees := func(f *ssa.Function) []*ssa.Function {
+		var out []*ssa.Function
+		core.Calls(f, func(c ssa.CallInstruction) {
+			g := core.CalleeFn(c)
+			if g != nil && !unit[g] {
+				if obj := core.Callee(c); obj != nil {
+					if og := p.SSA.FuncValue(obj.Origin()); og != nil {
+						g = og
+					}
+				}
+			}
+			if g != nil && unit[g] {
+				out = append(out, g)
 			}
 		})
-		marked := false
-		for _, u := range upds {
-			if u.from[getter] {
-				marked = true
+		return out
+	}
+	reaches := func(from, to *ssa.Function) bool {
+		seen := map[*ssa.Function]bool{}
+		stack := callees(from)
+		for len(stack) > 0 {
+			x := stack[len(stack)-1]
+			stack = stack[:len(stack)-1]
+			if x == to {
+				return true
 			}
+			if seen[x] {
+				continue
+			}
+			seen[x] = true
+			stack = append(stack, callees(x)...)
+		}
+		return false
+	}
+	// the walkers: functions of the unit on a cycle, and what they call inside the unit
+	walkers := map[*ssa.Function]bool{}
+	for f := range unit {
+		if reaches(f, f) {
+			walkers[f] = true
+		}
+	}
+	for changed := true; changed; {
+		changed = false
+		for f := range walkers {
+			for _, g := range callees(f) {
+				if !walkers[g] && len(g.Blocks) < 60 {
+					walkers[g] = true
+					changed = true
+				}
+			}
+		}
+	}
+	hasGetter := func(name string) bool {
+		for f := range walkers {
+			found := false
+			core.Calls(f, func(c ssa.CallInstruction) {
+				if isInvoke(c, name) {
+					found = true
+				}
+			})
+			if found {
+				return true
+			}
+		}
+		return false
+	}
+	if len(walkers) == 0 || !hasGetter("GetManifestList") || !hasGetter("GetLayers") {
+		r.MissingAnchor(rule, "mark phase of the layout GC (recursive walk below Close consulting GetManifestList and GetLayers)")
+		return
+	}
+	var first *ssa.Function
+	for _, f := range sortedFuncs(walkers) {
+		if first == nil && reaches(f, f) {
+			first = f
+		}
+	}
+	if first == nil {
+		for _, f := range sortedFuncs(walkers) {
+			first = f
+			break
+		}
+	}
+	fname := p.FuncName(first)
+	for _, getter := range []string{"GetManifestList", "GetConfig", "GetLayers"} {
+		called, marked := false, false
+		fname := fname
+		for _, f := range sortedFuncs(walkers) {
+			f := f
+			core.Calls(f, func(c ssa.CallInstruction) {
+				if !isInvoke(c, getter) {
+					return
+				}
+				called = true
+				fname = p.FuncName(f)
+				v, ok := c.(ssa.Value)
+				if !ok {
+					return
+				}
+				// the result flows into the key of a store into the mark set (a string-keyed map)
+				if forwardFlow(p, v, func(c2 ssa.CallInstruction, i int) bool { return false }, func(user ssa.Instruction, x ssa.Value) bool {
+					mu, isMU := user.(*ssa.MapUpdate)
+					if !isMU || mu.Key != x {
+						return false
+					}
+					m, isMap := mu.Map.Type().Underlying().(*types.Map)
+					return isMap && isStringType(m.Key())
+				}) {
+					marked = true
+				}
+			})
 		}
 		detail := "digests returned by " + getter + " are stored in the mark set"
 		if !called {
@@ -601,30 +692,47 @@ func c08R4(p *core.Prog, r *core.Report) {
 		} else if !marked {
 			detail = "the digests returned by " + getter + " never reach the mark set"
 		}
-		r.Check(called && marked, rule, fname, "edge kind "+getter, p.Pos(mark.Pos()), detail)
+		r.Check(called && marked, rule, fname, "edge kind "+getter, p.Pos(first.Pos()), detail)
 	}
 	// recursion: the nested manifest is fetched and recursed into independent of the entry's media type
 	lab := labeler{}
-	core.Calls(mark, func(c ssa.CallInstruction) {
-		if core.CalleeFn(c) != mark {
-			return
-		}
-		in := c.(ssa.Instruction)
-		bad := ""
-		for _, ifi := range core.ControlDeps(in) {
-			if dependsOnField(ifi.Cond, modPath("types/descriptor"), "Descriptor", "MediaType") {
-				bad = p.Pos(ifi.Pos())
-				if bad == "-" {
-					bad = p.Pos(ifi.Cond.Pos())
+	nRec := 0
+	for _, f := range sortedFuncs(walkers) {
+		f := f
+		core.Calls(f, func(c ssa.CallInstruction) {
+			g := core.CalleeFn(c)
+			if g != nil && !unit[g] {
+				if obj := core.Callee(c); obj != nil {
+					if og := p.SSA.FuncValue(obj.Origin()); og != nil {
+						g = og
+					}
 				}
 			}
-		}
-		if bad == "" {
-			r.Held(rule, fname, lab.next("recursion into index entry"), p.Pos(c.Pos()), "not control-dependent on the entry's media type")
-		} else {
-			r.Violated(rule, fname, lab.next("recursion into index entry"), p.Pos(c.Pos()), "the recursion is guarded by a test of the entry's media type at "+bad+": manifests of a type missing from that list (schema1, artifact, future types) are marked but their blobs are swept")
-		}
-	})
+			// a call that closes a cycle of the walk
+			if g == nil || !walkers[g] || !(g == f || reaches(g, f)) {
+				return
+			}
+			nRec++
+			in := c.(ssa.Instruction)
+			bad := ""
+			for _, ifi := range core.ControlDeps(in) {
+				if dependsOnField(ifi.Cond, modPath("types/descriptor"), "Descriptor", "MediaType") {
+					bad = p.Pos(ifi.Pos())
+					if bad == "-" {
+						bad = p.Pos(ifi.Cond.Pos())
+					}
+				}
+			}
+			if bad == "" {
+				r.Held(rule, p.FuncName(f), lab.next("recursion into index entry"), p.Pos(c.Pos()), "not control-dependent on the entry's media type")
+			} else {
+				r.Violated(rule, p.FuncName(f), lab.next("recursion into index entry"), p.Pos(c.Pos()), "the recursion is guarded by a test of the entry's media type at "+bad+": manifests of a type missing from that list (schema1, artifact, future types) are marked but their blobs are swept")
+			}
+		})
+	}
+	if nRec == 0 {
+		r.Undecided(rule, fname, "recursion into index entry", p.Pos(first.Pos()), "no recursive call found in the mark phase")
+	}
 }
 
 // dependsOnField reports whether the value (within a few steps) is computed from a load of the
